@@ -21,7 +21,7 @@ from checks import c09
 
 PROPERTY = "C11"
 LEVEL = "exploration"
-RULE = ("template-generated messages (finite floats, no extra header bytes, no acks) reference-encoded and DECODED FROM THE WIRE "
+RULE = ("template-generated messages (NaN-free floats incl. +-inf, no extra header bytes, no acks) reference-encoded and DECODED FROM THE WIRE "
         "(so values have the types the proxy shows), with boosted text (>=5 newlines, >100 chars, backslashes, quotes, #, [, <, "
         "[[X]], UUID-looking, NULs, non-UTF8), plus messages built around every registered pretty-printed field with own-image "
         "payloads / member values and consistent selector siblings; printed with beautify off and on, replacement tables none / "
@@ -29,7 +29,7 @@ RULE = ("template-generated messages (finite floats, no extra header bytes, no a
         "texts for the safe-mode clause.  Non-trivial = message with a str/bytes variable or a pretty-printed field; distinct by content.")
 ASSUMPTIONS = [
     "only the message-number + blocks part of the datagram is compared (packet id, acks and extra are comments in the text), after zero-expansion",
-    "floats are finite (inf/nan have no Python literal; the property text speaks of values shown by the proxy, C09 makes the same restriction)",
+    "floats are NaN-free as in C01 (a NaN's payload bits are not shown in the text); infinities are in the domain",
     "callables in replacement tables are called by design and are not `expressions contained in the text`",
 ]
 FLOORS = {"quick": {"plain": 2000, "beautified": 2000, "pretty_field_cases": 800, "packed_operator_seen": 400, "multiline": 100,
@@ -321,7 +321,7 @@ def run_shard(ctx, shard):
     if shard["kind"] == "msgs":
         @st.composite
         def strat(draw):
-            case = draw(gt.message_case(names=shard["names"], finite=True, with_header=True, omit_trailing=True))
+            case = draw(gt.message_case(names=shard["names"], finite=False, with_header=True, omit_trailing=True))
             case = _boost(draw, _prep(case))
             repl = draw(st.sampled_from(["none", "match", "nomatch", "zero"]))
             if repl in ("match", "zero") and draw(st.booleans()):
@@ -353,7 +353,7 @@ def run_shard(ctx, shard):
             return roundtrip_laws(ctx, c["case"], True, c["repl"]) + roundtrip_laws(ctx, c["case"], False, c["repl"])
         hyp_run(ctx, strat(), body, shard["n"])
     else:
-        strat = st.tuples(gt.message_case(finite=True, with_header=False, omit_trailing=False).map(_prep), SPLICE)
+        strat = st.tuples(gt.message_case(finite=False, with_header=False, omit_trailing=False).map(_prep), SPLICE)
 
         def body(c):
             ctx.case(c, nontrivial=True, classes=[])
